@@ -13,7 +13,9 @@ import (
 // C08 — power-level changes can never escalate privilege. The invariant is computed directly
 // from the old and new contents (it does not use R-auth's P rules, only the effective-level helper).
 
-var c08EventKeys = []string{"m.room.message", "m.room.topic", "m.room.power_levels", "m.room.third_party_invite", "org.example.custom"}
+var c08EventKeys = []string{"m.room.message", "m.room.topic", "m.room.power_levels", "m.room.third_party_invite", "org.example.custom",
+	// event types spelled like the named levels, like users / like map names (name-space collisions)
+	"users_default", "ban", "state_default", "events_default", "invite", "kick", "redact", "users", "events", "notifications", "room"}
 
 // c08GenNewPL draws a proposed power-levels content derived from the room's current one.
 func c08GenNewPL(t *rapid.T, version string, r c07Room, sender string) jv {
@@ -488,7 +490,7 @@ func c08EnumEdits(size, shard, nshards int, emit func(c07Case)) {
 	}
 	for _, version := range vfVersions {
 		for _, L := range []int64{50, 100} {
-			for _, which := range []string{"users", "events", "notifications", "named"} {
+			for _, which := range []string{"users", "events", "notifications", "named", "named-shadowed"} {
 				for _, op := range ops {
 					for _, added := range []int64{99, -1, 0, 1} {
 						for _, removed := range []int64{99, -1, 0} {
@@ -537,6 +539,11 @@ func c08EditCase(version string, L int64, which string, oldOff, newOff, added, r
 		k1, k2, k3 = "m.room.topic", "m.room.name", "org.example.custom"
 	case "notifications":
 		k1, k2, k3 = "room", "other", "third"
+	}
+	if which == "named-shadowed" {
+		// as "named", plus an UNCHANGED events entry whose event type is spelled like the named level
+		which = "named"
+		oldC = oldC.with("events", jobj("ban", jnum(L-1), "users_default", jnum(L-1), "invite", jnum(L-1)))
 	}
 	if which == "named" {
 		if oldOff != 99 {
